@@ -14,8 +14,10 @@ import (
 
 	"github.com/olive-io/bpmn/schema"
 	bpmn "github.com/olive-io/bpmn/v2"
+	"github.com/olive-io/bpmn/v2/pkg/clock"
 	bpmnerrors "github.com/olive-io/bpmn/v2/pkg/errors"
 	"github.com/olive-io/bpmn/v2/pkg/event"
+	"github.com/olive-io/bpmn/v2/pkg/timer"
 	"github.com/olive-io/bpmn/v2/pkg/tracing"
 
 	"verif/harness/quiesce"
@@ -28,6 +30,8 @@ type Inst struct {
 	Ctx    context.Context
 	Cancel context.CancelFunc
 	Tr     *quiesce.Tracker
+	// Clock is the mock clock of an instance created with Options.MockClock.
+	Clock *clock.Mock
 
 	sub     chan tracing.ITrace
 	mu      sync.Mutex
@@ -46,7 +50,14 @@ type Options struct {
 	Extra   []bpmn.Option
 	Tracker *quiesce.Tracker // nil: a new baseline is taken
 	Ctx     context.Context
+	// MockClock gives the instance a mock clock (at ClockBase), an own event
+	// bus and the timer event definition builder, so that timer events in the
+	// model fire when the test advances Inst.Clock - no real time involved.
+	MockClock bool
 }
+
+// ClockBase is the time a mock clock starts at.
+var ClockBase = time.Date(2030, 1, 1, 0, 0, 0, 0, time.UTC)
 
 // New parses the document and creates (but does not start) the instance.
 func New(xmlDoc string, o Options) (*Inst, error) {
@@ -68,9 +79,21 @@ func NewFromDefs(defs *schema.Definitions, tr *quiesce.Tracker, o Options) (*Ins
 		parent = context.Background()
 	}
 	ctx, cancel := context.WithCancel(parent)
+	var mock *clock.Mock
+	if o.MockClock {
+		mock = clock.NewMockAt(ClockBase)
+		ctx = clock.ToContext(ctx, mock)
+	}
 	opts := []bpmn.Option{bpmn.WithContext(ctx)}
 	if o.Vars != nil {
 		opts = append(opts, bpmn.WithVariables(o.Vars))
+	}
+	if o.MockClock {
+		fan := event.NewFanOut()
+		tracer := tracing.NewTracer(ctx)
+		builder := event.DefinitionInstanceBuildingChain(timer.EventDefinitionInstanceBuilder(ctx, fan, tracer))
+		opts = append(opts, bpmn.WithTracer(tracer), bpmn.WithProcessEventDefinitionInstanceBuilder(builder),
+			bpmn.WithEventEgress(fan), bpmn.WithEventIngress(fan))
 	}
 	opts = append(opts, o.Extra...)
 	p, err := bpmn.NewEngine().NewProcess(defs, opts...)
@@ -78,7 +101,7 @@ func NewFromDefs(defs *schema.Definitions, tr *quiesce.Tracker, o Options) (*Ins
 		cancel()
 		return nil, fmt.Errorf("new process: %w", err)
 	}
-	in := &Inst{Defs: defs, P: p, Ctx: ctx, Cancel: cancel, Tr: tr, readerD: make(chan struct{})}
+	in := &Inst{Defs: defs, P: p, Ctx: ctx, Cancel: cancel, Tr: tr, Clock: mock, readerD: make(chan struct{})}
 	in.sub = p.Tracer().SubscribeChannel(make(chan tracing.ITrace))
 	go in.reader()
 	return in, nil
